@@ -182,6 +182,9 @@ def make_world(scen, oracles=(), fault_plan=None):
     w = World(root, scen, level=scen.get("level", 0), lockmode=scen.get("lockmode", "never_break"),
               oracles=[o() if isinstance(o, type) else o for o in oracles], fault_plan=fault_plan)
     w.cfg_path = cfg
+    for name, text in (scen.get("aux_files") or {}).items():
+        with open(base + "/in/" + name, "w") as f:
+            f.write(text)
     SimSlurm(w)
     w.emit("init")
     login = scen.get("login", "submit")
@@ -270,7 +273,7 @@ def _g_always(w):
 
 def spawn_actor(w, a):
     """a: dict(name, argv=[...] with {out} placeholders, host, guard, after=name-of-actor)."""
-    argv0 = [x.replace("{out}", w.root) for x in a["argv"]]
+    argv0 = [x.replace("{out}", w.root).replace("{in}", os.path.dirname(w.root) + "/in") for x in a["argv"]]
     argv = argv0
     g = GUARDS[a.get("guard", "submitted")]
     after = a.get("after")
@@ -523,3 +526,11 @@ def _g_pipeline_idle(w):
 def _g_pipeline_stage2(w):
     d, sd = current_stage_dir(w)
     return d is not None and d.get("stage_num", 1) >= 2
+
+
+def groups_file_text(scen):
+    """Text of a submission-groups file (as written by `jade config save-submission-groups`) for scen's groups."""
+    from jade.utils.utils import ExtendedJSONEncoder
+
+    cfg = build_config(scen)
+    return json.dumps([g.dict() for g in cfg.submission_groups], cls=ExtendedJSONEncoder, indent=1)
